@@ -14,6 +14,9 @@ use crate::spec::{Op, RunEnd, Scenario, Spec, Stats, Tier};
 pub struct C18;
 
 pub fn gen_corpus_spec(rng: &mut Prng) -> Spec {
+    if rng.chance(1, 100) {
+        return seeding_sweep_spec(rng, "C18", "corpus_seeding_sweep");
+    }
     if rng.chance(1, 6) {
         let mut s = gen_jitter_spec(rng, "C18", &jitter_fault_set(), false);
         s.variant = "corpus_jitter".into();
@@ -78,6 +81,14 @@ pub fn gen_extra_corpus(seed: u64, n: usize) -> Vec<Spec> {
 pub fn exec_corpus(spec: &Spec, st: &mut Stats) -> Vec<u64> {
     let mut per_op = Vec::new();
     let kind = spec.kind.expect("kind");
+    if spec.variant == "corpus_seeding_sweep" {
+        if let Err((i, _)) = run_seeding_sweep(spec, st) {
+            st.log.str(&format!("panic@seeding {}", i));
+            st.count("probe:panic_marker");
+        }
+        per_op.push(st.log.finish());
+        return per_op;
+    }
     let mut g: Box<dyn DynGen> = match build(spec, false) {
         Ok(g) => g,
         Err(RunEnd::Discard(s)) => {
@@ -124,6 +135,13 @@ pub fn exec_corpus(spec: &Spec, st: &mut Stats) -> Vec<u64> {
                         }
                     })
                 } else {
+                    // the documented panic, in every configuration alike
+                    let r = guard(|| {
+                        if let Some(j) = g.jitter() {
+                            j.set_rounds(0)
+                        }
+                    });
+                    d.u64(matches!(r, Err(SutFail::Panic(_))) as u64);
                     Ok(())
                 }
             }
